@@ -15,8 +15,9 @@ Definition rt_binop (o : binop) (d1 d2 : dtype) (rexp : option Qc) : rtres :=
   | OAdd | OSub | OConv => if dtype_eqb d1 d2 then RDim d1 else RIncompatible
   | OMul => RDim (dmultiply d1 d2)
   | ODiv => RDim (ddivide d1 d2)
-  | OPow => match rexp with
-            | Some q => if d_is_scalar d1 then RDim d1 else RDim (dpower d1 q)
+  | OPow => if d_is_scalar d1 then RDim d1 else
+            match rexp with
+            | Some q => RDim (dpower d1 q)
             | None => RNone
             end
   | OLt | OGt | OLe | OGe | OEq | ONe => if dtype_eqb d1 d2 then RBool else RIncompatible
@@ -29,3 +30,20 @@ Definition rt_of_ty (t : ty) : rtres :=
 (* ExpAgree for one power: the run-time exponent is the statically evaluated one *)
 Definition exp_agree (b : expr) (rexp : option Qc) : Prop :=
   match const_eval b with Ok q => rexp = Some q | Err _ => True end.
+
+(* run-time dimension of a whole expression of the arithmetic fragment; g gives the dimension of
+   the unit stored for each name, rexp the exponent the VM computes for an exponent expression *)
+Fixpoint rt_expr (g : string -> option dtype) (rexp : expr -> option Qc) (e : expr) : rtres :=
+  match e with
+  | EScalar _ => RDim dscalar
+  | EIdent x | EUnit x => match g x with Some d => RDim d | None => RNone end
+  | EUn UNeg a => rt_expr g rexp a
+  | EBin o a b =>
+      match rt_expr g rexp a, rt_expr g rexp b with
+      | RDim d1, RDim d2 => rt_binop o d1 d2 (rexp b)
+      | RIncompatible, _ | _, RIncompatible => RIncompatible
+      | _, _ => RNone
+      end
+  | EBool _ => RBool
+  | _ => RNone
+  end.
